@@ -152,7 +152,10 @@ func (l *light) sources() []string {
 func (l *light) nlinks() int { return len(l.sinks()) }
 
 var listFlags = []string{"list-inputs", "list-outputs", "list-bonds", "list-processors", "list-domains", "enum-bonds", "enum-processors",
-	"list-internal-inputs", "list-internal-outputs", "list-shared-objects", "list-processor-shared-object-links", "emit-dot"}
+	"list-internal-inputs", "list-internal-outputs", "list-shared-objects", "list-processor-shared-object-links", "emit-dot", "specs"}
+
+// (-show-program-disassembled / -show-program-alias decode the ROM words: the generated machines also hold raw words
+// that no assembler produced, on which they panic — out of this entry's domain)
 
 func genIDs(t *rapid.T, count int) []int {
 	var ids []int
@@ -382,6 +385,25 @@ func apply(bm *bondmachine.Bondmachine, e Edit, dir string, step int) (args []st
 		}
 		return []string{"-del-domains", intsArg(e.IDs)}, false, nil
 	case "list":
+		if e.Flag == "specs" {
+			// -specs disassembles every ROM: the generated machines also hold raw words that no assembler
+			// produced (an opcode field beyond the opcode list makes the disassembler panic): only asked
+			// of machines whose words all decode
+			for _, d := range bm.Domains {
+				ok := func() (ok bool) {
+					defer func() {
+						if recover() != nil {
+							ok = false
+						}
+					}()
+					_, err := d.Disassembler()
+					return err == nil
+				}()
+				if !ok {
+					return []string{"-list-domains"}, false, nil
+				}
+			}
+		}
 		return []string{"-" + e.Flag}, false, nil
 	}
 	return nil, false, fmt.Errorf("unknown edit %q", e.Kind)
